@@ -230,6 +230,8 @@ def run(ctx):
         ctx.run_rule("T1", lambda c, t=ty: rule_timer(c, f, t))
     ctx.run_rule("T7", rule_T7, f)
     ctx.run_rule("T8", rule_T8, f)
+    from . import controls
+    ctx.run_rule("T7", lambda c: controls.control_leak_and_instant(c, "T7", "duration_since"))
     ctx.run_rule("T9", rule_T9, f)
     # the local chain needs a cleared clone and a flushing Drop
     ctx.run_rule("T9b", lambda c: C12.rule_local_histogram(c, f, "T9b"))
